@@ -418,7 +418,7 @@ fn main() {
                 let fail_file = format!("{dir}/.fail-{}-{k}.json", std::process::id());
                 let _ = std::fs::remove_file(&fail_file);
                 let out = std::process::Command::new(&exe).arg("child").arg(serde_json::to_string(cfg).unwrap()).arg(bound.map(|b| b.to_string()).unwrap_or_else(|| "none".into())).arg(&fail_file)
-                    .env("VC_MAX_SECS", if tier == "thorough" { "900" } else { "120" }).env("VC_ALONE_TABLE", &table_path).output().expect("spawn child");
+                    .env("VC_MAX_SECS", if tier == "thorough" { "300" } else { "120" }).env("VC_ALONE_TABLE", &table_path).output().expect("spawn child");
                 let stdout = String::from_utf8_lossy(&out.stdout).to_string();
                 if out.status.success() {
                     if let Some(l) = stdout.lines().find(|l| l.starts_with("RESULT ")) { results.lock().unwrap().push(serde_json::from_str(&l[7..]).unwrap()) }
